@@ -115,7 +115,7 @@ void fetch() {
     DD &s = dd();
     s.b = s.file.getBlock("b"); s.b2 = s.file.getBlock("b2");
     s.h[0] = s.b.getDataArray("a"); s.h[1] = s.b.getDataArray("a"); s.a = s.h[0];
-    s.f = s.b.getDataFrame("f"); s.g = s.b2.getDataFrame("g");
+    s.f = s.b.getDataFrame("f"); s.g = s.b2.getDataFrame("f");
 }
 
 // Two handles of one array must be indistinguishable: state cached in a handle (a count, an extent) would go stale when the
@@ -149,7 +149,7 @@ DRV_OP(dd_new) {
         for (size_t i = 0; i < nc; i++) cols.push_back({"c" + std::to_string(i), units[i % 4], types[i % 4]});
         s.f = s.b.createDataFrame("f", "t", cols);
         s.f.rows(tokNat(a[4]));
-        s.g = s.b2.createDataFrame("g", "t", {{"x", "ms", nix::DataType::Double}, {"y", "", nix::DataType::Int64}});
+        s.g = s.b2.createDataFrame("f", "t", {{"x", "ms", nix::DataType::Double}, {"y", "", nix::DataType::Int64}});
         return std::string();
     });
 }
